@@ -12,7 +12,7 @@ CONSTANTS
   SymTargets = {"out", "f", "out/x"}
   RootIgnore = {1, 2, 3, 4, 7}
   DirIgnore = {3, 5, 6}
-  TreeIds = {1, 2, 3, 4, 5, 6, 7, 8, 9, 10, 11, 12, 13}
+  TreeIds = {1, 2, 3, 4, 5, 6, 7, 8, 9, 10, 11, 12, 13, 14, 15, 16, 17, 18}
   SparseIds = {1, 2, 3, 4, 5, 6}
   XP = "ignore"
   Strict = "none"
